@@ -5,6 +5,11 @@ ROOT = os.path.dirname(os.path.dirname(os.path.abspath(__file__)))
 props = [json.loads(l)["id"] for l in open(os.path.join(ROOT, "properties.jsonl"))]
 
 CHECKS = {
+ "C02": dict(
+  technique="enumeration of the size-determining header fields x truncation points + proptest shaped/random/mutated buffers, each view placed exactly against inaccessible guard pages (before and after) in a debug-assertion build and in a release build; differential on acceptance and reported size against an independent decoder; invariant: safe accessors/mutators never change the layout or write outside the view",
+  text="Exploration with exhaustively enumerated cores: path type x all 256 address type/length nibble pairs x segment-length triples ({0,1,2,3,31,62,63}^3 quick, all 2^18 thorough) x HdrLen variants x truncation at every field boundary; every constructor (slice, mut slice, boxed) of every view type; the crate's exec_every_view_function plus generated sequences of safe accessors/mutators run on the exact view bytes bounded by PROT_NONE pages, so any out-of-view access faults (reported by a SIGSEGV handler with the replay case). Run twice: with debug assertions/overflow checks and as plain release build.",
+  note="Page-granular exact placement detects out-of-bounds reads/writes at the view's end and start, not provenance/aliasing UB (Miri is another technique); unsafe setters excluded; a libFuzzer target exists as a thorough-tier extension only.",
+  design="DESIGN.md §3 C02"),
  "C03": dict(
   technique="proptest over packet models built by construction (boundary-directed sizes, representable and unrepresentable models, even/odd buffer alignment); differential against an independent wire decoder/encoder and RFC 1071 checksum; round trip; reference-encoded canonical byte strings",
   text="Exploration: each generated model is encoded by the SUT and read back by an independently written decoder (fields, truthful HdrLen/PayloadLen/UDP length, zero reserved bits, checksum over pseudo-header||message), decoded again by the SUT (equal model, no rest); encoding into a dirty buffer must equal encoding into a fresh Vec; canonical byte strings produced by the reference encoder must decode and re-encode identically; models that cannot be represented must be rejected (any accepted model has to pass all of the above).",
